@@ -15,7 +15,7 @@ def ctl_text(kind, n):
     return CTL_TEXT[kind] % n
 
 
-def make(ctl, plain, mode="constant", maxp=1, layer=False, th=None, gcap=4):
+def make(ctl, plain, mode="constant", maxp=1, layer=False, th=None):
     """ctl: names from CTL; plain: {key name: action desc}; layer: add lsft = (layer-while-held l1) with a second
     mapping of the plain keys; th: (key, T, tap, hold) one tap-hold key.
     Returns (desc for the .kbd text, monitor parameters) - two independent renderings of the description."""
@@ -49,11 +49,13 @@ def make(ctl, plain, mode="constant", maxp=1, layer=False, th=None, gcap=4):
     refdesc = {"keys": keys, "layers": layersref, "defcfg": {}}
     params = {"c04": cfgdesc.c04_params(refdesc),
               "ctl": [{"c": cfgdesc.code(CTL[n][0]), "k": CTL[n][1], "n": CTL[n][2]} for n in ctl],
-              "th": ths, "max": maxp, "recorded": mode == "recorded", "gcap": gcap}
+              "th": ths, "max": maxp, "recorded": mode == "recorded",
+              # the gaps between recorded events are only read for time-sensitive keys replayed with recorded delays
+              "gcap": (th[1] + 2) if (th and mode == "recorded") else 0}
     return desc, params
 
 
-def instance(name, desc, params, D=1, qmax=2, maclen=None, free_replay=False):
+def instance(name, desc, params, D=1, qmax=2, maclen=None, free_replay=False, saves=2):
     """The exhaustive instance: every physically consistent typing history over the keys, every gap 0..D between
     recorded events.  Environment: no input while a control key press waits in the queue (the recording boundary
     would not be determined by the input order); unless free_replay, only control keys are released while a replay
@@ -62,12 +64,11 @@ def instance(name, desc, params, D=1, qmax=2, maclen=None, free_replay=False):
     kbd = cfgdesc.render_kbd(desc)
     keys = [cfgdesc.code(k) for k in desc["keys"]]
     ctl = "{" + ", ".join(str(c["c"]) for c in params["ctl"]) + "}"
-    defs = ["CtlCodes == " + ctl,
-            "CtlQueued == \\E i \\in DOMAIN K.L.queue : K.L.queue[i].p /\\ K.L.queue[i].x = 0 /\\ K.L.queue[i].y \\in CtlCodes",
-            "DynBound == /\\ ~K.dyn.amb /\\ (K.dyn.rec = <<>> \\/ K.dyn.rec[1].delay <= %d)" % D
+    ctlq = "(\\E i \\in DOMAIN K.L.queue : K.L.queue[i].p /\\ K.L.queue[i].x = 0 /\\ K.L.queue[i].y \\in %s)" % ctl
+    defs = ["DynBound == /\\ ~K.dyn.amb /\\ K.dyn.ns <= %d" % saves + " /\\ (K.dyn.rec = <<>> \\/ K.dyn.rec[1].delay <= %d)" % D
             + ("" if maclen is None else
                " /\\ (K.dyn.rec = <<>> \\/ Len(K.dyn.rec[1].items) <= %d)" % maclen)]
-    guard = "/\\ ~CtlQueued"
+    guard = "/\\ ~" + ctlq
     inst = {"name": "c19_" + name, "kbd": kbd, "keys": keys, "qmax": qmax,
             "monitor": {"module": "P_C19", "params": params},
             "constraint": "DynBound", "extra_defs": "\n".join(defs), "extra_guard": guard,
@@ -75,7 +76,7 @@ def instance(name, desc, params, D=1, qmax=2, maclen=None, free_replay=False):
     if not free_replay:
         # while a replay runs only releases of control keys are typed
         inst["extra_guard"] = guard + " /\\ K.dyn.rep = <<>>"
-        inst["extra_actions"] = ("RelCtl(c) == /\\ Alive /\\ K.dyn.rep # <<>> /\\ ~CtlQueued /\\ c \\in phys /\\ c \\in CtlCodes\n"
+        inst["extra_actions"] = ("RelCtl(c) == /\\ Alive /\\ Len(K.L.queue) < QMax /\\ K.dyn.rep # <<>> /\\ ~%s /\\ c \\in phys /\\ c \\in %s\n" % (ctlq, ctl) +
                                  "             /\\ K' = HandleInput(K, \"u\", c) /\\ phys' = phys \\ {c}\n"
                                  "             /\\ mon' = Mon!MonIn(mon, [e |-> \"u\", c |-> c, out |-> K'.out])\n"
                                  "             /\\ hist' = Append(hist, <<\"u\", c>>)")
